@@ -510,7 +510,9 @@ fn dispatch(ty: &str, params: &[&str], ops: &[Vec<&str>], out: &mut String) -> b
         "M4" => e!(M4),
         "M5" => e!(M5),
         "M6" => e!(M6),
+        "M7" => e!(M7),
         "M8" => e!(M8),
+        "M9" => e!(M9),
         "M10" => e!(M10),
         "Min" => e!(average::Min),
         "Max" => e!(average::Max),
